@@ -341,6 +341,29 @@ def run_case(a):
                     res["viol"].append(("C03 missing-wrapper entry=build-script run=%d" % (k_ + 1), "after run %d of the build script on the unchanged project, commands %s have no wrapper (commands.ts %s)" % (
                         k_ + 1, lost[:5], "present" if "commands.ts" in ob.mods else "absent")))
                     break
+        if not res["viol"] and idx % 7 == 3 and not anc and "truth_now" not in res:
+            # the standard layout (sources in ./src-tauri), the flags spelled exactly like the built-in defaults, and a configuration
+            # document that names another project: the flags say which project is scanned
+            import os, shutil, json as _json
+            from .. import tsmod
+            shutil.copytree(os.path.join(g.root, "src"), os.path.join(g.root, "src-tauri"), symlinks=True)
+            common.write_tree(os.path.join(g.root, "legacy"), [("old.rs", "#[tauri::command]\npub fn legacy_only_%d() -> i32 { 1 }\n" % idx)])
+            _json.dump({"productName": "x", "plugins": {"typegen": {"projectPath": "./legacy", "outputPath": "./legacy_out", "validationLibrary": "zod" if mode == "none" else "none"}}},
+                       open(os.path.join(g.root, "tauri.conf.json"), "w"))
+            rd = common.run([cli, "tauri-typegen", "generate", "-p", "./src-tauri", "-o", "./src/generated", "-v", mode], cwd=g.root, hash_seed=seed % 211)
+            res["default_spelled_flag_runs"] = 1
+            if not rd.timed_out and rd.rc == 0:
+                od = tsmod.Output(os.path.join(g.root, "src", "generated"))
+                invd = set()
+                if "commands.ts" in od.mods and not od.mods["commands.ts"].errors:
+                    for fname, lst in od.commands().items():
+                        for c in lst:
+                            invd.add(c["invoke_name"])
+                lost = sorted(nm for nm in truth if nm not in invd)
+                extra = sorted(nm for nm in invd if nm is not None and nm.startswith("legacy_only_"))
+                if lost or extra:
+                    res["viol"].append(("C03 wrong-project-scanned flags-spelled-like-the-defaults", "generate -p ./src-tauri -o ./src/generated -v %s next to a tauri.conf.json naming ./legacy: commands %s have no wrapper in ./src/generated, wrappers for %s" % (
+                        mode, lost[:4], extra)))
         if res["viol"]:
             res["witness"] = proj.witness_of(files, mode, extra={"expected_commands": sorted(truth), "decoys": decoys})
         return res
